@@ -197,8 +197,15 @@ def v2_prices(df, market):
 
 
 POS_F, NEG_F, EXP = 2e-10, 4e-10, 2
+V2_IMPACT = {"pos": POS_F, "neg": NEG_F}  # configuration as well (set_v2_impact): the positive factor never exceeds the negative one
 DEP_FEE_POS, DEP_FEE_NEG, WD_FEE = 0.0005, 0.0007, 0.0007
 V2_FEES = {"dep_pos": DEP_FEE_POS, "dep_neg": DEP_FEE_NEG, "wd": WD_FEE}  # the pool's fee factors are configuration: a check may set others (market and reference alike)
+
+
+def set_v2_impact(market=None, pos=POS_F, neg=NEG_F):
+    V2_IMPACT.update(pos=pos, neg=neg)
+    if market is not None:
+        market.pool_config.swapImpactFactorPositive, market.pool_config.swapImpactFactorNegative = pos, neg
 
 
 def set_v2_fees(market=None, dep_pos=DEP_FEE_POS, dep_neg=DEP_FEE_NEG, wd_pos=0.0005, wd_neg=WD_FEE):
@@ -215,13 +222,14 @@ def v2_impact(row, long_usd, short_usd):
         na, nb = pa + long_usd, pb + short_usd
         i, nx = abs(pa - pb), abs(na - nb)
         same = (pa <= pb) == (na <= nb)
-        pos_f = min(POS_F, NEG_F)
+        pos_f = min(V2_IMPACT["pos"], V2_IMPACT["neg"])
+        NEG = V2_IMPACT["neg"]
         if same:
             positive = nx < i
-            f = pos_f if positive else NEG_F
+            f = pos_f if positive else NEG
             d = abs(i**EXP * f - nx**EXP * f)
             return d if positive else -d
-        p, q = i**EXP * pos_f, nx**EXP * NEG_F
+        p, q = i**EXP * pos_f, nx**EXP * NEG
         d = abs(p - q)
         return d if p > q else -d
     v = impact(row["longAmount"] * row["longPrice"], row["shortAmount"] * row["shortPrice"])
